@@ -33,12 +33,12 @@ def shards(tier, seed):
     out = []
     for detect in (True, False):
         for rw in (False, True):
-            for link in (False, True):
+            for link in (False, True, "chardev"):
                 if tier == "quick":
-                    out.append({"id": "d%d-rw%d-l%d" % (detect, rw, link), "detect": detect, "rw": rw, "link": link, "L": L, "first": None})
+                    out.append({"id": "d%d-rw%d-l%s" % (detect, rw, {False: 0, True: 1}.get(link, link)), "detect": detect, "rw": rw, "link": link, "L": L, "first": None})
                 else:
                     for f in NONTERM:
-                        out.append({"id": "d%d-rw%d-l%d-%s" % (detect, rw, link, f), "detect": detect, "rw": rw, "link": link, "L": L, "first": f})
+                        out.append({"id": "d%d-rw%d-l%s-%s" % (detect, rw, {False: 0, True: 1}.get(link, link), f), "detect": detect, "rw": rw, "link": link, "L": L, "first": f})
         out.append({"id": "facade-d%d" % detect, "facade": True, "detect": detect, "L": 4 if tier == "quick" else 6})
     out.append({"id": "iscsi", "iscsi": True})
     return out
@@ -354,6 +354,12 @@ def run(shard, ctx):
         return
     detect, rw, L = shard["detect"], shard["rw"], shard["L"]
     link = shard.get("link", False)
+    if link == "chardev":
+        from vmon.sim import devnode
+
+        if not devnode.chardev_possible():
+            ctx.count("chardev_nodes_unavailable")  # mknod not permitted here: this configuration cannot be driven
+            return
     for n in range(0, L + 1):
         for tup in itertools.product(NONTERM, repeat=n):
             if shard["first"] and (not tup or tup[0] != shard["first"]):
